@@ -139,3 +139,128 @@ Proof.
   cbn zeta. split; [unfold wf; cbn; repeat split; try lia; repeat constructor|].
   split; [cbn; lia|]. eexists. eexists. split; [vm_compute; reflexivity|]. split; vm_compute; reflexivity.
 Qed.
+
+(* ================================================================== extension: the definitions added to PData/Model.v by the
+   coverage audit (PipelineData.__new__, pipeline.concat as called, operations followed by indexing).
+   Proofs in PData/ProofsX.v; vocabulary defined there: [nd_array sh d] d is a genuine ndarray of shape sh;
+   [new_accepts] the constructor's two length checks; [new_unchecked_ok] no label list without channel axis / no
+   metadata list without epoch axis; [forget x] the plain ndarray under x; [regular_chain] every expression of a chain
+   is in the per-axis class of [denotes] (or refused by NumPy); [map_res f] f applied to the elements of a result. *)
+From PV Require Import PData.ProofsX.
+
+(* PipelineData.__new__ raises exactly when a supplied channel / metadata list has the wrong length (or is a scalar
+   where a list is needed), for every shape, data, s0 and rate ... *)
+Theorem C11_new_error_iff : forall sh d s fn fd ch md,
+  (exists e, pd_new sh d s fn fd ch md = RErr e) <-> new_accepts sh ch md = false.
+Proof. exact new_error_iff. Qed.
+Print Assumptions C11_new_error_iff.
+(* ... otherwise it returns the array with the supplied / default annotations ... *)
+Theorem C11_new_result : forall sh d s fn fd ch md, new_accepts sh ch md = true ->
+  pd_new sh d s fn fd ch md =
+  RArr {| shape := sh; dat := d; s0 := s; fsn := fn; fsd := fd; chan := new_chan sh ch; meta := new_meta sh md |}.
+Proof. exact new_result. Qed.
+Print Assumptions C11_new_result.
+(* ... which is inside the domain [wf] of the theorems above exactly when no label list was given for an array
+   without channel axis and no metadata list for one without epoch axis (the constructor does not look at those) *)
+Theorem C11_new_wellformed_partial : forall sh d s fn fd ch md p,
+  nd_array sh d -> pd_new sh d s fn fd ch md = RArr p -> (wf p <-> new_unchecked_ok sh ch md = true).
+Proof. exact new_wellformed_partial. Qed.
+Print Assumptions C11_new_wellformed_partial.
+(* "every array a user can construct is well-formed" is false of the code: PipelineData(np.arange(3), fs=1000,
+   channel=['a', 'b']) is accepted; x[np.newaxis, :] then raises 'Too many channels' *)
+Theorem C11_new_wellformed_refuted :
+  exists sh d s fn fd ch md p, nd_array sh d /\ pd_new sh d s fn fd ch md = RArr p /\ ~ wf p /\
+    getitem p (tuple [INewaxis; full]) = RErr EValue.
+Proof. exact new_wellformed_refuted. Qed.
+Print Assumptions C11_new_wellformed_refuted.
+
+(* pipeline.concat: all pieces annotated = the annotated concatenation of the theorems above, for every axis *)
+Theorem C11_concat_any_annotated : forall dm ps, ps <> [] ->
+  concat_any (Some dm) (map PAnn ps) = cres_of false (concat_pd dm ps).
+Proof. exact concat_any_annotated. Qed.
+Print Assumptions C11_concat_any_annotated.
+(* an unknown axis, a mix of plain and annotated pieces, and no piece at all are always refused *)
+Theorem C11_concat_any_refuses : forall dm ps,
+  (dm = None -> concat_any dm ps = CErr EValue) /\
+  (existsb is_plain ps = true -> forallb is_plain ps = false -> concat_any dm ps = CErr EValue) /\
+  (ps = [] -> concat_any dm ps = CErr EValue).
+Proof. exact concat_any_refuses. Qed.
+Print Assumptions C11_concat_any_refuses.
+(* all pieces plain, along time: whenever it returns, the shapes agreed off the time axis, the time axis is the sum,
+   the result is well-shaped and each row is the concatenation of the pieces' rows (shape law + data); and it
+   returns whenever the shapes agree *)
+Theorem C11_concat_any_plain_time : forall sh d rest sh' d',
+  wf_dat sh d -> Forall piece_ok rest ->
+  concat_any (Some DTime) (PPlain sh d :: rest) = CPlain sh' d' ->
+  Forall (fun p => is_plain p = true /\ removelast (piece_shape p) = removelast sh) rest /\
+  sh' = set_time sh (time_total (last sh 0) rest) /\ wf_dat sh' d' /\ rows d' = cat_rows (rows d) rest.
+Proof. exact concat_any_plain_time. Qed.
+Print Assumptions C11_concat_any_plain_time.
+Theorem C11_concat_any_plain_time_accepts : forall rest sh d,
+  wf_dat sh d -> Forall piece_ok rest ->
+  Forall (fun p => is_plain p = true /\ removelast (piece_shape p) = removelast sh) rest ->
+  exists sh' d', concat_any (Some DTime) (PPlain sh d :: rest) = CPlain sh' d'.
+Proof. exact concat_any_plain_time_accepts. Qed.
+Print Assumptions C11_concat_any_plain_time_accepts.
+(* forgetting the annotations commutes with concatenation along time *)
+Theorem C11_concat_any_forget : forall ps r,
+  Forall wf ps -> concat_pd DTime ps = RArr r ->
+  concat_any (Some DTime) (map forget ps) = CPlain (shape r) (dat r).
+Proof. exact concat_any_forget. Qed.
+Print Assumptions C11_concat_any_forget.
+(* C11_concat_restores / C11_concat_rejects lifted to pipeline.concat *)
+Theorem C11_concat_any_restores : forall x cuts,
+  wf x -> cuts <> [] -> cuts_ok 0 cuts (n_time x) ->
+  exists ps, all_arrays (map (getitem x) (piece_indices 0 cuts)) = inr ps /\ Forall wf ps /\
+             concat_any (Some DTime) (map PAnn ps) = CAnn x /\
+             concat_any (Some DTime) (map forget ps) = CPlain (shape x) (dat x).
+Proof. exact concat_any_restores. Qed.
+Print Assumptions C11_concat_any_restores.
+Theorem C11_concat_any_rejects : forall ps r,
+  Forall (fun p => match p with PAnn x => wf x | PPlain _ _ => True end) ps ->
+  concat_any (Some DTime) ps = CAnn r ->
+  exists base rest, ps = map PAnn (base :: rest) /\ consistent base rest /\
+    s0 r = s0 base /\ fsn r = fsn base /\ fsd r = fsd base /\ chan r = chan base /\ meta r = meta base.
+Proof. exact concat_any_rejects. Qed.
+Print Assumptions C11_concat_any_rejects.
+
+(* indexing and elementwise operations commute: (f x)[i1][i2].. = f (x[i1][i2]..) - data, shape, s0, rate, labels,
+   metadata, scalar results and every raised error alike - for EVERY f on chains of per-axis index expressions
+   (no hypothesis on x), and for every f with f 0 = 0 on EVERY index expression of the language *)
+Theorem C11_getitems_map : forall f rep ixs x, f 0 = 0 \/ regular_chain rep x ixs = true ->
+  getitems rep (map_data f x) ixs = map_res f (getitems rep x ixs).
+Proof. exact getitems_map. Qed.
+Print Assumptions C11_getitems_map.
+Theorem C11_op_getitem_commute : forall f x ix k per, denotes (ndim x) ix k per ->
+  getitem (map_data f x) ix = map_res f (getitem x ix).
+Proof. exact op_getitem_commute. Qed.
+Print Assumptions C11_op_getitem_commute.
+Theorem C11_op_getitems_commute_any : forall rep o x ixs, zero_preserving o = true ->
+  getitems rep (map_data (uop_fun o) x) ixs = map_res (uop_fun o) (getitems rep x ixs).
+Proof. exact op_getitems_commute_any. Qed.
+Print Assumptions C11_op_getitems_commute_any.
+Theorem C11_op_preserves_annotation : forall rep o x ixs r, regular_chain rep x ixs = true ->
+  getitems rep (map_data (uop_fun o) x) ixs = RArr r ->
+  exists r0, getitems rep x ixs = RArr r0 /\ shape r = shape r0 /\ s0 r = s0 r0 /\ fsn r = fsn r0 /\ fsd r = fsd r0 /\
+             chan r = chan r0 /\ meta r = meta r0 /\ dat r = map_nest (uop_fun o) (dat r0).
+Proof. exact op_preserves_annotation. Qed.
+Print Assumptions C11_op_preserves_annotation.
+(* without either hypothesis the commutation fails on an ILL-FORMED record (a model artefact, not psiaudio behaviour);
+   for well-formed arrays, paired indices and f 0 <> 0 it is tested but not proved *)
+Theorem C11_op_getitems_illformed_refuted :
+  exists x ix, regular_its (ndim x) (items ix) = false /\ ~ wf x /\
+    getitem (map_data (uop_fun (UAdd 5)) x) ix <> map_res (uop_fun (UAdd 5)) (getitem x ix).
+Proof. exact op_getitems_illformed_refuted. Qed.
+Print Assumptions C11_op_getitems_illformed_refuted.
+
+Example C11_ext_ex :
+  nd_array [2; 3] (N2 [[0; 1; 2]; [3; 4; 5]]) /\
+  new_accepts [2; 3] (Some (LMany [70; 71])) None = true /\ new_unchecked_ok [2; 3] (Some (LMany [70; 71])) None = true /\
+  (let x := mk [2; 3; 4] (-3) 1000 1 (LMany [70; 71; 72]) (LMany [90; 91]) in
+   let ixs := [tuple [IMask [true; false] true; ISlice (Some 1) None None; ISlice (Some (-9)) None (Some 2)];
+               tuple [IInt 0; IEllipsis; ISlice (Some 1) None None]] in
+   wf x /\ regular_chain true x ixs = true).
+Proof.
+  destruct new_ex as (H1 & H2 & H3 & _). destruct op_getitems_ex as (H4 & H5 & _).
+  split; [exact H1|]. split; [exact H2|]. split; [exact H3|]. split; [exact H4|exact H5].
+Qed.
